@@ -447,17 +447,23 @@ func (env *Env) binop(n *Node) *Value {
 			return term(app("s.app", a.T, b.T), sStr, a.Type)
 		}
 		if a.Sort == sF64 {
-			return term(app("fp.add", "RNE", a.T, b.T), sF64, a.Type)
+			return term(app("fadd", a.T, b.T), sF64, a.Type)
 		}
 		return term(app("+", a.T, b.T), sInt, a.Type)
 	case "-":
 		if a.Sort == sF64 {
-			return term(app("fp.sub", "RNE", a.T, b.T), sF64, a.Type)
+			return term(app("fsub", a.T, b.T), sF64, a.Type)
 		}
 		return term(app("-", a.T, b.T), sInt, a.Type)
 	case "*":
+		if a.Sort == sF64 {
+			return term(app("fmul", a.T, b.T), sF64, a.Type)
+		}
 		return term(app("*", a.T, b.T), sInt, a.Type)
 	case "/":
+		if a.Sort == sF64 {
+			return term(app("fdiv", a.T, b.T), sF64, a.Type)
+		}
 		return term(app("gdiv", a.T, b.T), sInt, a.Type)
 	case "%":
 		return term(app("gmod", a.T, b.T), sInt, a.Type)
@@ -584,6 +590,8 @@ func (env *Env) call(n *Node) *Value {
 	case "allocated":
 		x := arg(0)
 		return term(sel(e.comp(env.st, "alloc", arrSort(sBool)), x.T), sBool, boolT)
+	case "feq": // IEEE equality (NaN != NaN, +0 == -0); contract `==` on floats is identity
+		return term(app("fp.eq", arg(0).T, arg(1).T), sBool, boolT)
 	case "isNaN":
 		return term(app("fp.isNaN", arg(0).T), sBool, boolT)
 	case "isInf":
